@@ -843,6 +843,18 @@ class LayoutTyper(Structured):
     def refine(self, st, test, truth):
         # `if np.isscalar(x)`: x is a scalar on the true branch
         t = test
+        if isinstance(t, ast.BoolOp) and isinstance(t.op, ast.And) and truth:
+            for v_ in t.values:                      # every conjunct holds on the true branch
+                st = self.refine(st, v_, True)
+                if st is None:
+                    return None
+            return st
+        if isinstance(t, ast.BoolOp) and isinstance(t.op, ast.Or) and not truth:
+            for v_ in t.values:
+                st = self.refine(st, v_, False)
+                if st is None:
+                    return None
+            return st
         if isinstance(t, ast.Call) and isinstance(t.func, ast.Attribute) and t.func.attr == 'isscalar' \
                 and len(t.args) == 1 and isinstance(t.args[0], ast.Name):
             if truth:
@@ -853,6 +865,13 @@ class LayoutTyper(Structured):
             if isinstance(l_, ast.Attribute) and isinstance(r_, ast.Attribute) and l_.attr == 'attrs' and r_.attr == 'attrs':
                 l_, r_ = l_.value, r_.value          # equal attribute TUPLES: same attributes in the same order, i.e. the same layout
             da, db = self.dom_term(l_, st), self.dom_term(r_, st)
+            # `tuple(S) == X.domain.attrs`: X's domain is the projection of itself onto the sequence S (all its attributes, in S's order)
+            for a_, b_ in ((t.left, t.comparators[0]), (t.comparators[0], t.left)):
+                if isinstance(a_, ast.Attribute) and a_.attr == 'attrs' and not (isinstance(b_, ast.Attribute) and b_.attr == 'attrs'):
+                    dx = self.dom_term(a_.value, st)
+                    sx = self.attrs_term(b_, st)
+                    if dx is not None and sx is not None and sx[0] == 'var':
+                        da, db = dx, ('project', dx, sx)
             if da is not None and db is not None and da != db and truth == isinstance(t.ops[0], ast.Eq):
                 def occurs(x, y):
                     return x == y or (isinstance(y, tuple) and any(occurs(x, z) for z in y))
